@@ -186,8 +186,8 @@ def _one_field_cases(tier):
                 for order in ([(seed + i + rep + a_i) % 2] if tier == "quick" else [0, 1]):
                     mode = "Diffuse" if rng.random() < 0.75 else "Target"
                     yield {
-                        "field": i, "order": order, "mode": mode, "alt_pick": a_i, "n": int(rng.choice([40, 120])),
-                        "spectrum": [{"id": "monospectrum", "log_nu_energy": float(rng.choice([9.0, 10.5]))}, {"id": "powerspectrum", "index": 2.0, "lower_bound": 8.0, "upper_bound": 11.0}][int(rng.integers(0, 2))],
+                        "field": i, "order": order, "mode": mode, "alt_pick": a_i, "n": int(rng.choice([150, 300])),
+                        "spectrum": [{"id": "monospectrum", "log_nu_energy": float(rng.choice([9.5, 10.5]))}, {"id": "powerspectrum", "index": 1.5, "lower_bound": 9.0, "upper_bound": 11.0}][int(rng.integers(0, 2))],
                         "cloud": [{"id": "no_cloud"}, {"id": "monocloud", "altitude": 4.0}, {"id": "pressure_map", "month": int(rng.integers(1, 13))}][int(rng.integers(0, 3))],
                         "optical": True, "radio": True, "det": float(rng.choice([525.0, 2000.0, 400.0])), "lat": 0.3, "lon": 1.1,
                         "ra": float(rng.uniform(0, 6.28)), "dec": float(rng.uniform(-0.6, 0.6)), "aim": [float(rng.uniform(0.2, 0.8)), float(rng.uniform(0, 6.28))],
@@ -228,6 +228,8 @@ def body_one_field(case):
     labels = {".".join(path[-2:])}
     if len(tab) > 0:
         labels.add("survivors")
+    if "EFields" in tab.colnames and np.any(np.asarray(tab["EFields"]) != 0.0):
+        labels.add("non_zero_radio_fields")
     return labels
 
 
